@@ -288,6 +288,25 @@ def RState.reset (r : RState) (scroll leaveAlt : Bool) : RState × List Cmd :=
 def RState.init : RState × List Cmd :=
   RState.reset ⟨none, none, ⟨0, 0⟩, none, none, none, false, false, false, false⟩ true true
 
+/-- the `previous_screen` argument of the differ: `_last_screen`, forgotten when the size changed
+    (`self._last_size != size`) or the style / transformation / colour depth changed -/
+def RState.prevFor (r : RState) (e : Env) (key : Nat) : Option Screen :=
+  if r.styleKey != some key then none
+  else (if r.lastSize != some (e.h, e.w) then none else r.lastScreen)
+
+/-- `previous_width = self._last_size.columns if self._last_size else 0` -/
+def RState.prevWidth (r : RState) : Nat :=
+  match r.lastSize with
+  | some (_, c) => c
+  | none => 0
+
+/-- the fields `Renderer.render` assigns after the differ returned `d` -/
+def RState.rendered (r : RState) (e : Env) (s : Screen) (mouseWanted : Bool) (key shape : Nat)
+    (d : Out) : RState :=
+  { r with inAlt := r.inAlt || e.fullScreen, paste := true, ckm := true, mouse := mouseWanted,
+           styleKey := some key, pos := d.pos, lastStyle := d.last, lastScreen := some s,
+           lastSize := some (e.h, e.w), shape := some shape }
+
 /-- `Renderer.render(app, layout, is_done)` where the layout produces screen `s`,
     `output.get_size()` is `(e.h, e.w)`, `mouseWanted = self.mouse_support()`, `key` the interned
     (style hash, transformation hash, colour depth), `shape = app.cursor.get_cursor_shape(app)`
@@ -300,17 +319,9 @@ def RState.render (r : RState) (e : Env) (s : Screen) (isDone mouseWanted : Bool
   let c4 : List Cmd :=
     if mouseWanted && !r.mouse then [.enableMouse]
     else if !mouseWanted && r.mouse then [.disableMouse] else []
-  let ls1 := if r.lastSize != some (e.h, e.w) then none else r.lastScreen
-  let ls2 := if r.styleKey != some key then none else ls1
-  let prevWidth := match r.lastSize with
-    | some (_, c) => c
-    | none => 0
-  let d := diff e s r.pos ls2 r.lastStyle isDone prevWidth
+  let d := diff e s r.pos (r.prevFor e key) r.lastStyle isDone r.prevWidth
   let c5 : List Cmd := if r.shape != some shape then [.setCursorShape shape] else []
-  let r1 : RState :=
-    { r with inAlt := r.inAlt || e.fullScreen, paste := true, ckm := true, mouse := mouseWanted,
-             styleKey := some key, pos := d.pos, lastStyle := d.last, lastScreen := some s,
-             lastSize := some (e.h, e.w), shape := some shape }
+  let r1 := r.rendered e s mouseWanted key shape d
   let cmds := c1 ++ (c2 ++ (c3 ++ (c4 ++ (d.cmds ++ (c5 ++ [Cmd.flush])))))
   if isDone then
     let r2 := r1.reset false true
